@@ -31,6 +31,13 @@ def code_hash():
     return h.hexdigest()[:16]
 
 
+def _link(src, dst):
+    try:
+        os.symlink(src, dst)
+    except FileExistsError:
+        pass
+
+
 def sandbox_home(fresh=False, tag=None):
     """Create (or reuse) a HOME whose ~/.osaca/data links every shipped model file."""
     name = tag or code_hash()
@@ -39,17 +46,23 @@ def sandbox_home(fresh=False, tag=None):
     if fresh and os.path.isdir(home):
         shutil.rmtree(home)
     if not os.path.isdir(data):
-        # prune other sandboxes (other code versions)
+        # prune sandboxes of other code versions, but never ones that may be in use by a
+        # concurrently running check (younger than 6 hours)
         base = os.path.join(WORK, "home")
         if os.path.isdir(base) and tag is None:
+            import time as _t
             for d in os.listdir(base):
-                if len(d) == 16 and d != name:
-                    shutil.rmtree(os.path.join(base, d), ignore_errors=True)
-        os.makedirs(os.path.join(data, "isa"))
+                p = os.path.join(base, d)
+                try:
+                    if len(d) == 16 and d != name and _t.time() - os.path.getmtime(p) > 6 * 3600:
+                        shutil.rmtree(p, ignore_errors=True)
+                except OSError:
+                    pass
+        os.makedirs(os.path.join(data, "isa"), exist_ok=True)
         for y in glob.glob(os.path.join(REPO, "osaca", "data", "*.yml")):
-            os.symlink(y, os.path.join(data, os.path.basename(y)))
+            _link(y, os.path.join(data, os.path.basename(y)))
         for y in glob.glob(os.path.join(REPO, "osaca", "data", "isa", "*.yml")):
-            os.symlink(y, os.path.join(data, "isa", os.path.basename(y)))
+            _link(y, os.path.join(data, "isa", os.path.basename(y)))
     return home
 
 
